@@ -1,3 +1,5 @@
+import Unimock.Generated.Control
+import Unimock.Lemmas.Gates
 import Unimock.Model.Lifecycle
 import Unimock.Generated.LockSites
 import Unimock.Props.C08
@@ -116,5 +118,29 @@ theorem C11_user_panic_log_untouched (env : Env α ρ) (fuel lvl : Nat) (s : Sha
     parameter) or — class 5 — another body that only reads, assigns, takes or pushes through its one parameter and calls
     nothing else (in particular no `clone`, which could be user code). -/
 theorem C11_lock_bodies_closed : (Generated.lockSites.all fun c => decide (c < 6)) = true := by decide
+
+
+/-! ### read off the source's own statement order (`Generated/Control.lean`) -/
+
+/-- on an unwinding thread the statement list of `teardown::teardown` ends in `Ok(())` for every observation: original or
+    clone, live clones, foreign thread, recorded errors, unmet expectations — it never reaches a `panic!` or `Err` -/
+theorem C11_source_teardown_silent_when_unwinding (o : Gates.Obs) (h : o.panicking = true) :
+    (Gates.run Generated.teardownSteps o {}).1 = .ok := by
+  obtain ⟨a, b, c, d, e, f, g, k⟩ := o
+  simp only at h; subst h
+  cases a <;> cases c <;> cases d <;> cases e <;> cases f <;> cases g <;> cases k <;> rfl
+
+/-- and `impl Drop` reaches `teardown` at most once per instance: never when already torn down -/
+theorem C11_source_drop_after_teardown (f : Gates.IFlags) (h : f.tornDown = true) :
+    Gates.runD Generated.dropSteps f = .nothing := by
+  obtain ⟨a, b, c⟩ := f
+  simp only at h; subst h
+  cases a <;> cases c <;> rfl
+
+/-- every statement list sets `torn_down` before anything that can fail -/
+theorem C11_source_marks_torn_down (o : Gates.Obs) :
+    (Gates.run Generated.teardownSteps o {}).snd.tornDown = true := by
+  obtain ⟨a, b, c, d, e, f, g, k⟩ := o
+  cases a <;> cases b <;> cases c <;> cases d <;> cases e <;> cases f <;> cases g <;> cases k <;> rfl
 
 end Unimock
